@@ -83,7 +83,7 @@ def k_sum_invalid_axis(c):
 
 def k_repeat_negative_or_invalid_axis(c):
     op, a = args_of(c.req)
-    return op == 'repeat' and (int(a['axis']) < 0 or int(a['axis']) >= _dim(a))
+    return op == 'repeat' and (int(a['axis']) < -_dim(a) or int(a['axis']) >= _dim(a))
 
 
 def k_concatenate_unchecked(c):
@@ -91,8 +91,9 @@ def k_concatenate_unchecked(c):
     if op != 'concatenate':
         return False
     s1, s2, ax = ints(a['shape']), ints(a['shape2']), int(a['axis'])
-    if ax < 0 or ax >= len(s1) or len(s1) != len(s2):
+    if ax < -len(s1) or ax >= len(s1) or len(s1) != len(s2):
         return True
+    ax = ax % len(s1)
     return any(s1[k] != s2[k] for k in range(len(s1)) if k != ax)
 
 
